@@ -10,6 +10,8 @@ oracle_c15 — line protocol (sequential operations on one worker group):
         faults: string over 0/1/c (1 = that callback invocation fails, c = the caller's context is cancelled during it), `-` = none
   `peek <k>`    → `cached:<v>` for every worker cache holding k (`miss` if none)   (non-mutating; P)
   `where <k>`   → `w<i>` of the worker(s) caching k (`nowhere`)                      (T-observable)
+  `keytype <t>` → `ok` (keys become mux.<t>; use with the map facade or one worker: eviction depends on routing)
+  `backlog <k> <m> -` → `done` (m operations accepted behind a held callback, judged by monitors)
   `start`       → `ok` (calls `Start()` again)        `probe <keytype>` → `ok`
   `store <k>`   → `<v>` | `none`
   `stress <seed> <n> -` / `pile <k> <m> -` → `done`   (concurrent mix / same-key pile-up on the real code, judged by monitors only)
@@ -81,6 +83,14 @@ def step1 (st : St) (line : String) : St × String :=
          (some (State.init (f != "map") (f == "lrus") c w), "ok")
        else (none, "bad-op")
      | _, _ => (none, "bad-op"))
+  | ["keytype", t] =>    -- the script's keys are of this type from now on (routing is not fixed by the property)
+    (match st with
+     | some _ => (st, if ["int", "int64", "uint64", "intcrc", "int64crc", "uint64crc", "string"].contains t then "ok" else "bad-op")
+     | none => (st, "bad-op"))
+  | ["backlog", k, m, "-"] =>
+    (match st, parseKey k, natOf m with
+     | some _, some _, some m => if 1 ≤ m && m ≤ 5000 then (st, "done") else (st, "bad-op")
+     | _, _, _ => (st, "bad-op"))
   | [op, k, f] =>
     (match st, parseKey k, parseFaults f with
      | some s, some k, some f =>
